@@ -246,3 +246,123 @@ fn nodes_into_order(mut nodes: IndexMap<NaiveDateTime, Number>, ad: ADOrder, id:
         }
     }
 }
+
+/// Verification-only wrapper (compiled only with `--cfg rateslib_verif`): drives the private
+/// Python-facing `Curve` exactly as the Python bindings do, without an interpreter.
+#[cfg(rateslib_verif)]
+pub mod verif {
+    use super::*;
+
+    #[derive(Clone, Copy, Debug, PartialEq, Eq)]
+    pub enum VerifInterp {
+        LogLinear,
+        Linear,
+        LinearZeroRate,
+        FlatForward,
+        FlatBackward,
+        Null,
+    }
+
+    #[derive(Clone, Deserialize, Serialize)]
+    pub struct VerifCurve(pub(crate) Curve);
+
+    impl VerifCurve {
+        #[allow(clippy::too_many_arguments)]
+        pub fn new(
+            nodes: IndexMap<NaiveDateTime, Number>,
+            interpolator: VerifInterp,
+            ad: ADOrder,
+            id: &str,
+            convention: Convention,
+            modifier: Modifier,
+            calendar: CalType,
+            index_base: Option<f64>,
+        ) -> PyResult<Self> {
+            let interp = match interpolator {
+                VerifInterp::LogLinear => CurveInterpolator::LogLinear(LogLinearInterpolator::new()),
+                VerifInterp::Linear => CurveInterpolator::Linear(LinearInterpolator::new()),
+                VerifInterp::LinearZeroRate => {
+                    CurveInterpolator::LinearZeroRate(LinearZeroRateInterpolator::new())
+                }
+                VerifInterp::FlatForward => {
+                    CurveInterpolator::FlatForward(FlatForwardInterpolator::new())
+                }
+                VerifInterp::FlatBackward => {
+                    CurveInterpolator::FlatBackward(FlatBackwardInterpolator::new())
+                }
+                VerifInterp::Null => CurveInterpolator::Null(NullInterpolator::new()),
+            };
+            Ok(VerifCurve(Curve::new_py(
+                nodes,
+                interp,
+                ad,
+                id.to_string(),
+                convention,
+                modifier,
+                calendar,
+                index_base,
+            )?))
+        }
+        pub fn get(&self, date: &NaiveDateTime) -> Number {
+            self.0.__getitem__(*date)
+        }
+        pub fn set_ad_order(&mut self, ad: ADOrder) -> PyResult<()> {
+            self.0.set_ad_order(ad)
+        }
+        pub fn ad(&self) -> ADOrder {
+            self.0.ad()
+        }
+        pub fn id(&self) -> String {
+            self.0.id()
+        }
+        pub fn interpolation(&self) -> String {
+            self.0.interpolation()
+        }
+        pub fn nodes(&self) -> IndexMap<NaiveDateTime, Number> {
+            self.0.nodes()
+        }
+        pub fn index_value(&self, date: &NaiveDateTime) -> PyResult<Number> {
+            self.0.index_value_py(*date)
+        }
+        pub fn index_base(&self) -> Option<f64> {
+            self.0.inner.index_base
+        }
+        pub fn node_index(&self, date_timestamp: i64) -> usize {
+            self.0.inner.node_index(date_timestamp)
+        }
+        pub fn calendar(&self) -> CalType {
+            self.0.inner.calendar.clone()
+        }
+        pub fn convention(&self) -> Convention {
+            self.0.convention()
+        }
+        pub fn modifier(&self) -> Modifier {
+            self.0.modifier()
+        }
+        pub fn eq(&self, other: &VerifCurve) -> bool {
+            self.0.__eq__(other.0.clone())
+        }
+        /// What `Curve.to_json` (Python) returns: the tagged form.
+        pub fn to_json_tagged(&self) -> PyResult<String> {
+            self.0.to_json_py()
+        }
+        /// `JSON::to_json` of the untagged `Curve` type.
+        pub fn to_json(&self) -> Result<String, String> {
+            JSON::to_json(&self.0).map_err(|e| e.to_string())
+        }
+        pub fn from_json(json: &str) -> Result<Self, String> {
+            <Curve as JSON>::from_json(json)
+                .map(VerifCurve)
+                .map_err(|e| e.to_string())
+        }
+        /// The byte state produced by `__getstate__` / consumed by `__setstate__`.
+        pub fn to_bincode(&self) -> Vec<u8> {
+            serialize(&self.0).unwrap()
+        }
+        pub fn from_bincode(bytes: &[u8]) -> Result<Self, String> {
+            deserialize::<Curve>(bytes)
+                .map(VerifCurve)
+                .map_err(|e| e.to_string())
+        }
+    }
+}
